@@ -28,7 +28,7 @@ from .. import c02_lib as L
 
 GROUPS = ['tensor', 'custom', 'discr1', 'discr2', 'pspace']
 NV_QUICK = {'tensor': 6, 'custom': 6, 'discr1': 4, 'discr2': 3, 'pspace': 4}
-NV_THOROUGH = {'tensor': 12, 'custom': 12, 'discr1': 8, 'discr2': 5, 'pspace': 8}
+NV_THOROUGH = {'tensor': 10, 'custom': 10, 'discr1': 6, 'discr2': 4, 'pspace': 6}
 DTYPES = {'R': ['float64', 'float32'], 'C': ['complex128', 'complex64']}
 
 
@@ -348,8 +348,8 @@ def run(ctx):
         ctx.add_tlc(name, res)
     t_model = time.time()
 
-    # ---- 2. replay of exported cases on real ODL (process pool) ----
-    per_case = 2 if quick else 4
+    # ---- 2. replay of exported cases on real ODL (process pool); events are streamed into trace chunks ----
+    per_case = 2 if quick else 3
     tasks = []
     for g in GROUPS:
         with open(os.path.join(work, 'exp_%s.ndjson' % g)) as f:
@@ -359,16 +359,31 @@ def run(ctx):
         step = 150
         for s in range(0, len(lines), step):
             tasks.append((g, lines[s:s + step], per_case, ctx.seed, s // step))
-    nrand = 3000 if quick else 40000
+        del lines
+    nrand = 3000 if quick else 20000
     rtasks = [(ctx.seed * 1000003 + 17 * t, 250, t) for t in range(nrand // 250)]
-    with Pool(processes=14) as pool:
-        chunks = pool.map(_replay_chunk, tasks, chunksize=1)
-        rchunks = pool.map(_random_chunk, rtasks, chunksize=1)
 
-    events = []                       # (event, case, variant key, info)
+    chunk = 2000
+    files = []
+    vkeys = []                        # per event: concretisation (the rest is re-read from the trace chunk if needed)
+    state = {'f': None}
     sigcount = {}
     featstat = {}
     sampled = set()
+    errors = []
+
+    def emit(ev, vkey):
+        eid = len(vkeys)
+        if eid % chunk == 0:
+            if state['f']:
+                state['f'].close()
+            files.append(os.path.join(work, 'trace_%d.ndjson' % (eid // chunk)))
+            state['f'] = open(files[-1], 'w')
+        e = dict(ev)
+        e['id'] = eid
+        e['tid'] = 0
+        state['f'].write(json.dumps(e) + '\n')
+        vkeys.append(vkey)
 
     def report(sig, detail):
         key = dumps(sig, sort_keys=True)
@@ -376,88 +391,83 @@ def run(ctx):
         if sigcount[key] <= 3:        # a few replay files per family, all cases counted
             ctx.violation(sig, detail)
 
-    errors = []
-    for ch in chunks:
-        for item in ch:
-            if item[0] == 'error':
-                errors.append(item[1])
-                continue
-            _, case, vkey, ev, info, bad = item
-            events.append((ev, case, vkey, info))
-            regime = 'small' if vkey['tile'] == 1 else ('medium' if vkey['tile'] < 1000 else 'large')
-            ctx.count([case['spc'], case['x'], case['y'], np.dtype(vkey['dtype']).kind, regime], nontrivial(case))
-            skey = (case['g'], regime)
-            if nontrivial(case) and skey not in sampled and len(sampled) < 5 and \
-                    (case['g'] != 'tensor' or regime == 'large') and case['e']['ixy']['s'] == 'ok' and not bad:
-                sampled.add(skey)
-                ctx.sample({'abstract': {k: case[k] for k in ('spc', 'x', 'y', 'a')}, 'concretisation': vkey,
-                            'expected': {n: case['e'][n] for n in ('ixy', 'nx', 'dxy', 'none')},
-                            'observed': {n: ev['o'][n] for n in ('ixy', 'nx', 'dxy', 'none')}})
-            if case['feat']:
-                fk = '+'.join(sorted(case['feat']))
-                tot, nb = featstat.get(fk, (0, 0))
-                featstat[fk] = (tot + 1, nb + (1 if bad else 0))
-            for name, clause in bad:
-                report(signature(case['spc'], case['feat'], name, clause),
-                       {'stage': 'replay', 'case': case, 'concretisation': vkey, 'observable': name,
-                        'expected': case['e'][name], 'observed': ev['o'][name], 'info': info})
+    with Pool(processes=14) as pool:
+        for ch in pool.imap(_replay_chunk, tasks, chunksize=1):
+            for item in ch:
+                if item[0] == 'error':
+                    errors.append(item[1])
+                    continue
+                _, case, vkey, ev, info, bad = item
+                emit(ev, vkey)
+                regime = 'small' if vkey['tile'] == 1 else ('medium' if vkey['tile'] < 1000 else 'large')
+                ctx.count([case['spc'], case['x'], case['y'], np.dtype(vkey['dtype']).kind, regime], nontrivial(case))
+                skey = (case['g'], regime)
+                if nontrivial(case) and skey not in sampled and len(sampled) < 5 and \
+                        (case['g'] != 'tensor' or regime == 'large') and case['e']['ixy']['s'] == 'ok' and not bad:
+                    sampled.add(skey)
+                    ctx.sample({'abstract': {k: case[k] for k in ('spc', 'x', 'y', 'a')}, 'concretisation': vkey,
+                                'expected': {n: case['e'][n] for n in ('ixy', 'nx', 'dxy', 'none')},
+                                'observed': {n: ev['o'][n] for n in ('ixy', 'nx', 'dxy', 'none')}})
+                if case['feat']:
+                    fk = '+'.join(sorted(case['feat']))
+                    tot, nb = featstat.get(fk, (0, 0))
+                    featstat[fk] = (tot + 1, nb + (1 if bad else 0))
+                for name, clause in bad:
+                    report(signature(case['spc'], case['feat'], name, clause),
+                           {'stage': 'replay', 'case': case, 'concretisation': vkey, 'observable': name,
+                            'expected': case['e'][name], 'observed': ev['o'][name], 'info': info})
+        nreplayed = len(vkeys)
+        for ch in pool.imap(_random_chunk, rtasks, chunksize=1):
+            for item in ch:
+                if item[0] == 'error':
+                    errors.append(item[1])
+                    continue
+                _, case, vkey, ev, info, _ = item
+                emit(ev, vkey)
+                ctx.count([case['spc'], case['x'], case['y'], np.dtype(vkey['dtype']).kind], True)
+    if state['f']:
+        state['f'].close()
     for fk, (tot, nb) in sorted(featstat.items()):
         if nb == 0:
             ctx.drift_note('layer C (WeightingImpl) predicts deviations in cell %s; the real code agreed with layer A '
                            'on all %d cases of that cell' % (fk, tot))
-    nreplayed = len(events)
-    for ch in rchunks:
-        for item in ch:
-            if item[0] == 'error':
-                errors.append(item[1])
-                continue
-            _, case, vkey, ev, info, _ = item
-            events.append((ev, case, vkey, info))
-            ctx.count([case['spc'], case['x'], case['y'], np.dtype(vkey['dtype']).kind], True)
     if errors:
         ctx.machinery.append('cases that could not be set up: %d, first: %s' % (len(errors), errors[0]))
         raise MachineryError('case set-up failed: ' + errors[0])
-    ctx.traces += len(events)
-
+    nevents = len(vkeys)
+    ctx.traces += nevents
     t_replay = time.time()
 
     # ---- 3. TLC trace validation (chunks, in parallel) ----
-    chunk = 2000
-    files = []
-    for ci in range(0, len(events), chunk):
-        p = os.path.join(work, 'trace_%d.ndjson' % (ci // chunk))
-        with open(p, 'w') as f:
-            for k, (ev, case, vkey, info) in enumerate(events[ci:ci + chunk]):
-                e = dict(ev)
-                e['id'] = ci + k
-                e['tid'] = 0
-                f.write(json.dumps(e) + '\n')
-        files.append(p)
-
     def val(p):
-        return p, run_tlc('Trace_Space.tla', 'Trace_Space.cfg', work, workers=1, timeout=3000,
+        return p, run_tlc('Trace_Space.tla', 'Trace_Space.cfg', work, workers=1, timeout=3000, heap='2g',
                           env={'TRACE_FILE': p, 'JAVA_TOOL_OPTIONS': '-XX:ParallelGCThreads=2'})
-    with ThreadPoolExecutor(max_workers=14) as ex:
-        vres = list(ex.map(val, files))
     nfail = 0
-    for p, res in vres:
-        ctx.add_tlc('trace-' + os.path.basename(p), res)
-        for line in res.output.splitlines():
-            if not line.startswith('"FAIL '):
+    with ThreadPoolExecutor(max_workers=12) as ex:
+        for p, res in ex.map(val, files):
+            ctx.add_tlc('trace-' + os.path.basename(p), res)
+            recs = [json.loads(json.loads(line)[5:]) for line in res.output.splitlines() if line.startswith('"FAIL ')]
+            res.output = ''
+            if not recs:
                 continue
-            rec = json.loads(json.loads(line)[5:])
-            nfail += 1
-            ev, case, vkey, info = events[rec['id']]
-            for clause, name in sorted(set(map(tuple, rec['bad']))):
-                report(signature(case['spc'], rec['feat'], name, clause),
-                       {'stage': 'trace', 'case': {k: case[k] for k in ('g', 'spc', 'pw', 'x', 'y', 'z', 'a', 'xzero')},
-                        'concretisation': vkey, 'observable': name, 'observed': ev['o'], 'qn': ev['qn'],
-                        'info': info, 'tlc_clauses': rec['bad']})
+            with open(p) as f:
+                lines = f.readlines()
+            for rec in recs:
+                nfail += 1
+                ev = json.loads(lines[rec['id'] % chunk])
+                if ev['id'] != rec['id']:
+                    raise MachineryError('trace chunk %s out of step' % p)
+                vkey = vkeys[rec['id']]
+                for clause, name in sorted(set(map(tuple, rec['bad']))):
+                    report(signature(ev['spc'], rec['feat'], name, clause),
+                           {'stage': 'trace', 'case': {k: ev[k] for k in ('spc', 'pw', 'x', 'y', 'z', 'a', 'xzero')},
+                            'concretisation': vkey, 'observable': name, 'observed': ev['o'], 'qn': ev['qn'],
+                            'info': {'D': ev['D']}, 'tlc_clauses': rec['bad']})
     ctx.extra['phase_wall_s'] = {'model+export': round(t_model - ctx.t0, 1), 'replay+random': round(t_replay - t_model, 1),
                                  'trace-validation': round(time.time() - t_replay, 1)}
     ctx.extra['cases_replayed'] = nreplayed
-    ctx.extra['random_cases'] = len(events) - nreplayed
-    ctx.extra['trace_events_validated_by_tlc'] = len(events)
+    ctx.extra['random_cases'] = nevents - nreplayed
+    ctx.extra['trace_events_validated_by_tlc'] = nevents
     ctx.extra['trace_events_rejected_by_tlc'] = nfail
     ctx.extra['violating_cases_per_family'] = {k: v for k, v in sorted(sigcount.items())}
     ctx.exhaustive = True     # every exported case of the declared universes is replayed
